@@ -223,6 +223,8 @@ def svd_truncated(ctx, shape, index, ortho_l, ortho_r, cplx, max_rank):
             mid = [c for c in state.S.stub_log if c.kind == 'svd'][-1]
             ctx.eq(tag + ': s == leading %d singular values of the middle SVD' % r, s, mid.s[:r])
             ctx.eq(tag + ': last core of u == leading columns of U', u.cores[-1].reshape(-1, r), mid.U[:, :r])
+            from .C04 import _cut_ok
+            _cut_ok(ctx, tag + ' middle SVD', mid, r, theta, True, max_rank)
         return r
     res = ctx.explore('svd truncated', body)
     ctx.check('at least one feasible path', len(res) >= 1)
